@@ -101,7 +101,8 @@ func (i *vectorAggIterator) Next(r *Step) bool {
 
 	r.Timestamp = step.Timestamp
 	r.Samples = r.Samples[:0]
-	for _, g := range result {
+	for _, key := range sortedKeys(result) {
+		g := result[key]
 		r.Samples = append(r.Samples, Sample{
 			Data: g.agg.Result(),
 			Set:  g.metric,
@@ -177,7 +178,8 @@ func (i *vectorAggHeapIterator) Next(r *Step) bool {
 	}
 
 	r.Samples = r.Samples[:0]
-	for _, g := range result {
+	for _, key := range sortedKeys(result) {
+		g := result[key]
 		samples := g.heap.elements
 		slices.SortFunc(samples, func(a, b Sample) int {
 			if i.less(a, b) {
